@@ -358,7 +358,9 @@ class Checker:
     # ---- soft scopes: structural rules whose clause is decided by a fold -------------------------------------------
     _soft = None
 
-    def soft(self, covered_by):
+    _soft_hard = False
+
+    def soft(self, covered_by, undecided=False):
         """Context manager.  Inside it the structural (shape) rules speak only when they recognise what they see:
         a failed check, a failed `need`, a missing anchor or an unmet instance floor means "this is written in a way
         the rule does not know", and the clause is left to the fold named in `covered_by` (which decides the behaviour
@@ -368,14 +370,18 @@ class Checker:
 
         @contextlib.contextmanager
         def scope():
-            prev = ck._soft
-            ck._soft = covered_by
+            prev = (ck._soft, ck._soft_hard)
+            ck._soft, ck._soft_hard = covered_by, undecided
             try:
                 yield
             except (_SoftAbort, AnalysisError) as e:
-                ck.notes.setdefault('structural_rules_not_applicable', []).append(f'{str(e)[:200]} [left to {covered_by}]')
+                if undecided:
+                    # no fold decides this clause: an unrecognised shape is "cannot decide" (exit 2), never a violation
+                    ck.obligations.append(Obligation(covered_by, Loc('', '', 0, covered_by), 'structural rule applies to the code it is about', 'undecided', str(e)[:300], None))
+                else:
+                    ck.notes.setdefault('structural_rules_not_applicable', []).append(f'{str(e)[:200]} [left to {covered_by}]')
             finally:
-                ck._soft = prev
+                ck._soft, ck._soft_hard = prev
         return scope()
 
     def ok(self, rule, mod, node, what, detail=None, construct=None):
@@ -385,7 +391,10 @@ class Checker:
 
     def bad(self, rule, mod, node, what, msg, detail=None, construct=None):
         if self._soft:
-            self.skip(rule, mod, node, what, self._soft, construct)
+            if self._soft_hard:
+                self.undecided(rule, mod, node, what, msg, construct)
+            else:
+                self.skip(rule, mod, node, what, self._soft, construct)
             return
         self.obligations.append(
             Obligation(rule, self.repo.loc(mod, node, construct), what, 'violation', msg, detail)
